@@ -32,6 +32,7 @@ class FullFrontend(ConstrainedFrontend):
         self.max_memory = max_memory
         self._tls = threading.local()
         self._to_add = []
+        self._added = 0
 
     def _blank_copy(self, c):
         super()._blank_copy(c)
@@ -41,12 +42,15 @@ class FullFrontend(ConstrainedFrontend):
         c.max_memory = self.max_memory
         c._tls = threading.local()
         c._to_add = []
+        c._added = 0
 
     def _copy(self, c):
         super()._copy(c)
         c._track = self._track
         c._tls.solver = getattr(self._tls, "solver", None)  # pylint:disable=no-member
+        c._tls.seen = getattr(self._tls, "seen", None)  # pylint:disable=no-member
         c._to_add = list(self._to_add)
+        c._added = self._added
 
     #
     # Serialization support
@@ -67,17 +71,24 @@ class FullFrontend(ConstrainedFrontend):
         # self._tls = None
         self._tls = threading.local()
         self._to_add = []
+        self._added = 0
         super().__setstate__(base_state)
 
     #
     # Frontend Creation
     #
 
+    def _pending(self):
+        # The Z3 solver is kept per thread, the constraints (and `_to_add`) per frontend: when another thread synced
+        # its own solver it emptied `_to_add`, and this thread's solver never saw what was pending. Each thread
+        # therefore remembers the stamp of the constraint list its solver has seen.
+        return len(self._to_add) > 0 or getattr(self._tls, "seen", None) != self._added
+
     def _get_solver(self):
         if getattr(self._tls, "solver", None) is None:
             self._tls.solver = self._solver_backend.solver(timeout=self.timeout, max_memory=self.max_memory)
             self._add_constraints()
-        elif self._finalized and len(self._to_add) > 0:
+        elif self._finalized and self._pending():
             if (
                 not hasattr(self._solver_backend, "clone_solver")
                 or self._solver_backend.reuse_z3_solver
@@ -92,7 +103,7 @@ class FullFrontend(ConstrainedFrontend):
                 self._tls.solver = self._solver_backend.clone_solver(self._tls.solver)
             self._add_constraints()
 
-        if len(self._to_add) > 0:
+        if self._pending():
             self._add_constraints()
 
         if self._solver_backend.reuse_z3_solver:
@@ -105,6 +116,7 @@ class FullFrontend(ConstrainedFrontend):
     def _add_constraints(self):
         self._solver_backend.add(self._tls.solver, self.constraints, track=self._track)
         self._to_add = []
+        self._tls.seen = self._added
 
     #
     # Constraint management
@@ -113,6 +125,8 @@ class FullFrontend(ConstrainedFrontend):
     def _add(self, constraints, invalidate_cache=True):
         to_add = ConstrainedFrontend._add(self, constraints)
         self._to_add += to_add
+        if len(to_add) > 0:
+            self._added += 1
         return to_add
 
     def simplify(self):
@@ -121,6 +135,7 @@ class FullFrontend(ConstrainedFrontend):
         # TODO: should we do this?
         self._tls.solver = None
         self._to_add = []
+        self._added += 1
 
         return self.constraints
 
@@ -359,6 +374,7 @@ class FullFrontend(ConstrainedFrontend):
         ConstrainedFrontend.downsize(self)
         self._tls.solver = None
         self._to_add = []
+        self._added += 1
 
     #
     # Merging and splitting
